@@ -120,6 +120,77 @@ func funcValueUses(p *core.Program, obj *types.Func) []ast.Node {
 	return out
 }
 
+// opaqueHelpers: private helpers that a rule treats as one step and therefore
+// wants to keep seeing as a call in flattened views (one line of reason each).
+var opaqueHelpers = map[string]string{
+	"pkg/gengo.writeImports": "C01.R4/C04 treat the import block as one write step of the file writer; its body is checked on its own (sorted imports)",
+}
+
+func flatten(p *core.Program, f *core.Func) *core.Func {
+	if p.Opaque == nil {
+		p.Opaque = func(h *core.Func) bool { _, ok := opaqueHelpers[h.QName()]; return ok }
+	}
+	return p.Flatten(f)
+}
+
+// unitRoot climbs from a function to the declared function whose flattened
+// view contains it: a private helper (unexported, one static call site in the
+// program, never used as a value, same package) that core.Flatten inlines into
+// its caller belongs to the caller's unit.
+func unitRoot(p *core.Program, f *core.Func) *core.Func {
+	f = f.Root()
+	for i := 0; i < 4; i++ {
+		obj := f.Obj()
+		if obj == nil || obj.Exported() || f.Decl == nil {
+			return f
+		}
+		var sites []CallSite
+		for _, cs := range allCalls(p) {
+			if cs.In.Body != nil && core.CalleeFunc(cs.In.Info(), cs.Call) == obj {
+				sites = append(sites, cs)
+			}
+		}
+		if len(sites) != 1 || len(funcValueUses(p, obj)) > 0 {
+			return f
+		}
+		caller := sites[0].In.Root()
+		if caller.Pkg != f.Pkg || caller.Decl == nil || caller == f {
+			return f
+		}
+		if fl := flatten(p, caller); fl == caller || !fl.Members[f] {
+			return f
+		}
+		f = caller
+	}
+	return f
+}
+
+// unit: the flattened view of the unit a function belongs to.
+func unit(p *core.Program, f *core.Func) *core.Func {
+	return flatten(p, unitRoot(p, f))
+}
+
+// pkgUnits lists the functions of a package as flattened units: every declared
+// function that is not itself inlined into a caller, flattened, with its
+// literals. Literals in package-level initialisers are kept as they are.
+func pkgUnits(p *core.Program, rel string) []*core.Func {
+	var out []*core.Func
+	for _, f := range p.Funcs() {
+		if core.RelPkg(f.Pkg.PkgPath) != rel || f.Parent != nil {
+			continue
+		}
+		if f.Decl == nil {
+			out = append(out, f.AllFuncs()...)
+			continue
+		}
+		if unitRoot(p, f) != f {
+			continue
+		}
+		out = append(out, flatten(p, f).AllFuncs()...)
+	}
+	return out
+}
+
 // isInitFunc: a package init function.
 func isInitFunc(f *core.Func) bool {
 	return f != nil && f.Decl != nil && f.Decl.Recv == nil && f.Decl.Name.Name == "init"
